@@ -317,7 +317,8 @@ def run(ctx):
                 continue
             if n == 6 and derive(ctx.seed, "g6", idx) % 1500:
                 continue
-            graphs.append(dict(n=n, edges=[list(e) for e in edges]))
+            vs = c04.orientation_variants(edges)
+            graphs.append(dict(n=n, edges=vs[derive(ctx.seed, "orient", idx) % len(vs)]))
     for h in range(1, 7):
         for w in range(1, 6 // h + 1):
             graphs.append(dict(grid=[h, w]))
